@@ -596,6 +596,32 @@ class Terms:
     """Backward def-use slicing for one body.  Flow-insensitive per local (all definitions of a
     local are joined); loop-carried dependence is cut with ('loop', local)."""
 
+    CONTAINERS = ("alloc::vec::Vec", "build_helper::BuildHelper", "alloc::collections::BTreeMap",
+                  "alloc::collections::BTreeSet", "alloc::string::String", "alloc::collections::VecDeque")
+
+    def is_container_var(self, l):
+        """a user-named local holding a growable collection / the build helper: its value is the
+        result of a history of mutations, so it is kept symbolic as ('var', name, local); the
+        mutations are queried with container_defs()"""
+        if l not in self.b.local_names or l <= self.b.arg_count:
+            return False
+        tj = self.b.locals[l]["tyj"]
+        if tj["k"] != "adt":
+            return False
+        if tj["path"] in self.CONTAINERS:
+            return True
+        # a crate-local struct that is mutated in place through &mut calls (e.g. the NFA builder)
+        if tj.get("krate") == self.b.crate.name:
+            return any(d[0] == "mutby" for d in self.b.defs().get(l, []))
+        return False
+
+    def container_defs(self, l):
+        """[(kind, term, bb)] definitions/mutations of a container local"""
+        out = []
+        for d in self.b.defs().get(l, []):
+            out.append((d[0], self.of_def(d, (l,)), d[1]))
+        return out
+
     def __init__(self, body, bind=None, upvars=None, max_depth=60):
         self.b = body
         self.bind = bind or {}        # param local -> term (for closures evaluated in context)
@@ -607,6 +633,8 @@ class Terms:
     def local(self, l, stack=()):
         if l in self.memo:
             return self.memo[l]
+        if self.is_container_var(l):
+            return ("var", self.b.local_names[l], l)
         if l in stack:
             return ("loop", l)
         if len(stack) > self.max_depth:
@@ -620,7 +648,10 @@ class Terms:
                 ts.append(("closure", self.b.path, self.upvars))
             else:
                 ts.append(("param", l, self.b.local_names.get(l, "_%d" % l)))
+        is_param = 1 <= l <= self.b.arg_count
         for d in self.b.defs().get(l, []):
+            if is_param and d[0] == "mutby":
+                continue      # a by-value parameter mutated through &mut calls keeps its name
             ts.append(self.of_def(d, st))
         t = mk_phi(ts)
         # context-free memoisation only: a term containing a loop marker depends on where the
@@ -755,7 +786,7 @@ def walk(t):
             continue
         yield x
         k = x[0]
-        if k in ("const", "param", "loop", "fn", "undef", "unknown", "selfref"):
+        if k in ("const", "param", "loop", "fn", "undef", "unknown", "selfref", "var"):
             continue
         if k in ("call", "mutby"):
             if isinstance(x[1], tuple):
@@ -947,6 +978,8 @@ def show(t, depth=0):
         return (t[3].split("::")[-1] + "=" if t[3] else "") + str(t[1])
     if k == "param":
         return "param:" + str(t[2])
+    if k == "var":
+        return "var:" + str(t[1])
     if k == "field":
         return "%s.%s" % (s(t[1]), t[3])
     if k == "variant":
